@@ -174,6 +174,171 @@ def sim_job(agg, job, tier, seed):
     agg.engines.append({"engine": "sim", "features": job.get("build", "all"), "mode": mode, "profiles": job["profiles"], "executions": scen, "perturbations_per_scenario": perts, "wall_s": round(time.time() - t, 2)})
 
 
+SUBSETS = ["none", "tracing", "metrics", "test-utils", "deadlock-detection", "tracing+metrics", "tracing+test-utils", "tracing+deadlock-detection",
+           "metrics+test-utils", "metrics+deadlock-detection", "test-utils+deadlock-detection", "tracing+metrics+test-utils", "tracing+metrics+deadlock-detection",
+           "tracing+test-utils+deadlock-detection", "metrics+test-utils+deadlock-detection", "all"]
+
+
+def featdiff_job(agg, job, tier, seed):
+    """C18: the same seeded scenarios under different rsactor feature sets must give identical canonical traces."""
+    prop = agg.prop
+    quick = tier == "quick"
+    if quick:
+        mid = SUBSETS[1 + (seed % 14)]
+        subsets = ["none", "all", mid]
+    else:
+        subsets = list(SUBSETS)
+    count = job["count"][0 if quick else 1]
+    profiles = ",".join(job["profiles"])
+    nsh = NCPU
+    wdir = os.path.join(WORK, prop)
+    os.makedirs(wdir, exist_ok=True)
+    traces = {}
+    t = time.time()
+    for label in subsets:
+        binp = build(label)
+        lab = norm_label(label).replace("+", "_")
+
+        def one(i, binp=binp, lab=lab, label=label):
+            tp = os.path.join(wdir, f"trace-{lab}-{i}.txt")
+            cmd = [binp, "sim", "--prop", "C18", "--profiles", profiles, "--seed", str(seed), "--count", str(count), "--shard", str(i), "--nshards", str(nsh),
+                   "--perts", "1", "--mode", "direct", "--trace-out", tp, "--max-wall", "600"]
+            if "tracing" in label or label == "all":
+                cmd.append("--trace-verbose")
+            rc, out, err = run_proc(cmd, timeout=900)
+            return i, rc, out, err, tp
+
+        with ThreadPoolExecutor(max_workers=nsh) as ex:
+            results = list(ex.map(one, range(nsh)))
+        lines = {}
+        scen = 0
+        for i, rc, out, err, tp in results:
+            d = last_json(out)
+            if d is None:
+                agg.inconclusive.append(f"featdiff shard {i} [{label}] produced no result (rc={rc}): {err.strip()[-300:]}")
+                continue
+            scen += d["scenarios"]
+            agg.events += d["events"]
+            if label == "none":
+                agg.add_obl({k: v for k, v in d["obl"].items()})
+                if len(agg.samples) < 2:
+                    agg.samples.extend(d["samples"][:1])
+            if d["viol"]:
+                agg.notes.append(f"[{label}] other monitors reported {len(d['viol'])} violation(s), e.g. {d['viol'][0]['clause']}: {d['viol'][0]['msg'][:200]}")
+            try:
+                for ln in open(tp):
+                    parts = ln.split()
+                    if len(parts) == 5:
+                        lines[(parts[0], parts[1], parts[2])] = (parts[3], parts[4])
+                os.remove(tp)
+            except Exception as ex2:
+                agg.inconclusive.append(f"featdiff: cannot read {tp}: {ex2}")
+        traces[label] = lines
+        agg.scenarios += scen
+        agg.engines.append({"engine": "featdiff", "features": label, "profiles": job["profiles"], "executions": scen})
+    base = traces.get("none", {})
+    compared = 0
+    for label, lines in traces.items():
+        if label == "none":
+            continue
+        for key, val in base.items():
+            other = lines.get(key)
+            if other is None:
+                continue
+            compared += 1
+            if other != val:
+                agg.viol.append({"prop": "C18", "clause": "C18.equal_traces", "engine": "featdiff", "profile": key[0], "seed": int(key[1]), "pert": int(key[2]), "features": label,
+                                 "msg": f"scenario {key[0]}:{key[1]} gives canonical trace hash/len {val} with default features but {other} with features [{label}]"})
+    for key, val in base.items():
+        agg.hashes.add(("none", val[0]))
+    agg.nontrivial += len(base)
+    agg.add_obl({"C18.equal_traces": compared})
+    agg.extra["feature_sets_compared_with_default"] = [l for l in traces if l != "none"]
+    agg.extra["featdiff_wall_s"] = round(time.time() - t, 1)
+
+
+def gen_job(agg, job, tier, seed):
+    """C19: generated actor programs for the proc macros (positives are executed, negatives must not compile)."""
+    prop = agg.prop
+    quick = tier == "quick"
+    actors = job["actors"][0 if quick else 1]
+    rounds = job.get("rounds", (1, 3))[0 if quick else 1]
+    for rnd in range(rounds):
+        t = time.time()
+        proj = os.path.join(WORK, prop, f"proj{rnd}")
+        os.makedirs(os.path.dirname(proj), exist_ok=True)
+        rc, out, err = run_proc(["python3", os.path.join(ROOT, "gen", "macro_corpus.py"), "--seed", str(seed * 131 + rnd), "--actors", str(actors), "--out", proj], timeout=120)
+        if rc != 0:
+            agg.inconclusive.append(f"corpus generator failed: {err[-300:]}")
+            return
+        corpus = json.load(open(os.path.join(proj, "corpus.json")))
+        tenv = {"CARGO_TARGET_DIR": os.path.join(HARNESS, "target")}
+        rc, out, err = run_proc(["cargo", "build", "--release", "--offline", "--message-format=json"], timeout=1500, cwd=proj, extra_env=tenv)
+        if rc != 0:
+            msgs = []
+            in_repo = False
+            for ln in out.splitlines():
+                try:
+                    d = json.loads(ln)
+                except Exception:
+                    continue
+                if d.get("reason") == "compiler-message" and d["message"]["level"] == "error":
+                    spans = d["message"].get("spans") or [{}]
+                    fn = spans[0].get("file_name", "")
+                    if "c19corpus" not in d.get("package_id", "") and "proj" not in d.get("manifest_path", ""):
+                        in_repo = True
+                    msgs.append(f"{fn}:{spans[0].get('line_start','?')}: {d['message']['message']}")
+            if in_repo or not msgs:
+                raise Inconclusive("rsactor itself does not build for the macro corpus: " + "; ".join(msgs[:3]) + err[-300:])
+            for m in msgs[:5]:
+                agg.viol.append({"prop": prop, "clause": "C19.accepted_signature", "engine": "gen", "profile": "gen", "seed": seed * 131 + rnd, "pert": 0,
+                                 "msg": f"a generated program using only documented, accepted handler signatures does not compile: {m}", "args": ["--actors", actors]})
+            continue
+        rc, out, err = run_proc([os.path.join(HARNESS, "target", "release", "c19corpus")], timeout=600)
+        d = last_json(out)
+        if d is None:
+            agg.inconclusive.append(f"corpus runner produced no result (rc={rc}): {err[-300:]}")
+            continue
+        agg.scenarios += d["scenarios"]
+        agg.events += sum(d["obl"].values())
+        agg.add_obl(d["obl"])
+        agg.nontrivial += d["scenarios"]
+        for v in d["viol"]:
+            v["engine"] = "gen"
+            v["args"] = ["--actors", actors]
+            agg.viol.append(v)
+        for sh in corpus["shapes"]:
+            agg.hashes.add(("gen", sh))
+        if len(agg.samples) < 4:
+            agg.samples.extend([{"engine": "gen", "program": x} for x in corpus["samples"][:3]])
+        # negatives and controls
+        rc, out, err = run_proc(["cargo", "check", "--release", "--offline", "--examples", "--keep-going", "--message-format=json"], timeout=900, cwd=proj, extra_env=tenv)
+        ok, bad = set(), {}
+        for ln in out.splitlines():
+            try:
+                x = json.loads(ln)
+            except Exception:
+                continue
+            if x.get("reason") == "compiler-artifact" and "example" in x["target"]["kind"]:
+                ok.add(x["target"]["name"])
+            if x.get("reason") == "compiler-message" and x["message"]["level"] == "error":
+                bad.setdefault(x["target"]["name"], []).append(x["message"]["message"])
+        for name in corpus["examples"]:
+            agg.add_obl({"C19.compile_errors": 1})
+            if name.startswith("neg_"):
+                if name in ok and name not in bad:
+                    agg.viol.append({"prop": prop, "clause": "C19.compile_errors", "engine": "gen", "profile": "gen", "seed": seed, "pert": 0, "args": ["--actors", actors],
+                                     "msg": f"negative program {name} (an invalid handler/derive use that must be a compile error) compiled"})
+                elif name not in bad:
+                    agg.inconclusive.append(f"negative program {name}: neither compiled nor reported an error")
+            else:
+                if name in bad:
+                    agg.viol.append({"prop": prop, "clause": "C19.accepted_signature", "engine": "gen", "profile": "gen", "seed": seed, "pert": 0, "args": ["--actors", actors],
+                                     "msg": f"positive control {name} failed to compile: {bad[name][0][:300]}"})
+        agg.engines.append({"engine": "gen", "actors": actors, "handlers": corpus["handlers"], "example_targets": len(corpus["examples"]), "wall_s": round(time.time() - t, 1)})
+        shutil.rmtree(proj, ignore_errors=True)
+
+
 def generic_job(agg, job, tier, seed):
     """Engines that run as one process and print one JSON line (mt, laws, probe)."""
     prop = agg.prop
@@ -254,6 +419,8 @@ PLANS = {
     "C16": [S(["traffic", "refs", "timeouts", "kill", "lifecycle", "backpressure", "idle", "faults"], 2500, 60000, mode="diff"), S(["refs", "traffic", "kill"], 2000, 40000, mode="diff", build="none", seed_off=1000)],
     "C20": [M(["readers"], 6, 60), S(["metrics", "traffic", "kill", "faults"], 5000, 120000)],
     "C17": [M(["blocking"], 8, 90), M(["general"], 6, 60, seed_off=77)],
+    "C19": [{"engine": "gen", "actors": (60, 400), "rounds": (1, 3)}, S(["traffic", "faults"], 3000, 60000)],
+    "C18": [{"engine": "featdiff", "profiles": ["traffic", "backpressure", "lifecycle", "kill", "refs", "idle", "timeouts", "faults", "metrics"], "count": (1500, 20000)}],
 }
 
 # minimum number of non-vacuous evaluations of the key clauses below which a run is inconclusive
@@ -274,6 +441,8 @@ FLOORS = {
     "C14": {"C14.detect": 1000},
     "C15": {"C15.sound": 3000, "C15.residue": 5000},
     "C16": {"C16.equal_traces": 1000},
+    "C18": {"C18.equal_traces": 5000},
+    "C19": {"C19.reply_value": 100, "C19.tell_log": 100, "C19.ask_no_log": 100, "C19.compile_errors": 15, "C19.tell_result": 1000, "C19.derive_state": 10},
     "C17": {"C17.deadline": 40, "C17.inside_runtime": 20, "C17.deprecated_ignores_timeout": 10, "C17.dead_actor": 60},
     "C20": {"C20.sample": 1000, "C20.max_lower_bound": 300},
 }
@@ -283,6 +452,10 @@ LEVEL = {"C12": "fault_enumeration"}
 RULES = {
     "mt": "MT: real-thread rounds on multi-thread tokio runtimes (worker counts 4/16/32, async + spawn_blocking + std-thread clients, termination at a random instant, heartbeat-guarded watchdogs); "
     "one execution = one round; distinct = distinct hashes of the round's order-insensitive event projection (tight death-race rounds: distinct parameter tuples).",
+    "featdiff": "DIFF across builds: the harness is built against rsactor with different subsets of {tracing, metrics, test-utils, deadlock-detection}; every build runs the same seeded cycle-free SIM scenarios "
+    "and the canonical event trace (virtual times, every client/hook/lifecycle event, results; metric values and wall-clock measurements excluded) must be identical to the default-feature build's; distinct = distinct default-build trace hashes.",
+    "gen": "GEN: grammar-based generator of actor programs (actor kind x derive/manual Actor x handler attribute x return-type spelling x message kind x ActorRef spelling), compiled against /repo and executed; "
+    "one evaluation = one generated handler run through ask and tell with Ok- and Err-producing inputs; distinct = distinct handler shape tuples; negative programs are separate compile-only targets.",
     "laws": "LAWS: exhaustive enumeration of all 18 ActorResult shapes and one value of each of the 7 Error variants against an independent expectation table.",
     "probe": "PROBE: fresh-process probes of the once-per-process default-capacity configuration (each mode is one execution).",
     "sim": "SIM: seeded scenario generator (profiles listed under engines) executed on a fresh single-thread paused-clock tokio runtime running the real rsactor code; "
@@ -331,6 +504,10 @@ def run_check(prop, tier, seed):
         for job in PLANS[prop]:
             if job["engine"] == "sim":
                 sim_job(agg, job, tier, seed)
+            elif job["engine"] == "featdiff":
+                featdiff_job(agg, job, tier, seed)
+            elif job["engine"] == "gen":
+                gen_job(agg, job, tier, seed)
             else:
                 generic_job(agg, job, tier, seed)
     except Inconclusive as ex:
@@ -430,6 +607,27 @@ def run_replay(prop, path):
     except Inconclusive as ex:
         print(f"INCONCLUSIVE property={prop}: {ex}")
         return 2
+    if eng == "featdiff":
+        try:
+            b0 = build("none")
+        except Inconclusive as ex:
+            print(f"INCONCLUSIVE property={prop}: {ex}")
+            return 2
+        outs = []
+        for b in (b0, binp):
+            cmd = [b, "replay", "--profile", v["profile"], "--scen-seed", str(v["seed"]), "--pert", str(v.get("pert", 0)), "--quiet", "--canon", "--trace-verbose"]
+            rc, out, err = run_proc(cmd, timeout=600)
+            outs.append(out.splitlines())
+        a, b = outs
+        for i in range(max(len(a), len(b))):
+            x = a[i] if i < len(a) else None
+            y = b[i] if i < len(b) else None
+            if x != y:
+                print(f"canonical traces diverge at event {i}:\n  default features: {x}\n  [{feats}]: {y}")
+                print(f"VIOLATION property={prop} replay={path}")
+                return 1
+        print(f"canonical traces identical ({len(a)} events)")
+        return 0
     if eng == "sim":
         cmd = [binp, "replay", "--profile", v["profile"], "--scen-seed", str(v["seed"]), "--pert", str(v.get("pert", 0))]
         if v.get("erased"):
